@@ -4,8 +4,48 @@
    English reading is in the comment above it).  In every model the throw plan is part of the configuration
    (cfg lists the indices of the user-code invocations that throw) and the theorems are universally
    quantified over it: every choice of which invocation throws, combined with every schedule. *)
-From GV Require LRProofs DeferredProofs SOHProofs DelayedDestructorProofs.
+From GV Require LRProofs DeferredProofs SOHProofs DelayedDestructorProofs WrapperProofs CowProofs.
 From GV Require Properties_C03 Properties_C06 Properties_C16 Properties_C17.
+
+(* ---------- guarded / guarded_opt / shared_guarded(_opt) / ordered_guarded / atomic_guarded ---------- *)
+(* a throwing functor (modify / read) or a throwing copy / assignment of the wrapped type (store, operator=,
+   load, exchange, compare_exchange): the throwing call changes only the call counter and goes straight to the
+   guard's release with the exception pending *)
+Theorem wr_throw_step : ltac:(let T := type of WrapperProofs.wr_throw_step_t in exact T).
+Proof. exact WrapperProofs.wr_throw_step_t. Qed.
+(* K_CATCH is emitted only by the release of the operation's guard *)
+Theorem wr_catch_only_from_guard_release : ltac:(let T := type of WrapperProofs.catch_only_from in exact T).
+Proof. exact WrapperProofs.catch_only_from. Qed.
+(* the catching step emits [unlock; catch], ends at top level with the handle slots unchanged, and the thread's
+   lock counts equal what its handles own: the operation's own guard is released, nothing is left locked *)
+Theorem wr_exn_no_lock_left : ltac:(let T := type of WrapperProofs.wr_exn_no_lock_left in exact T).
+Proof. exact WrapperProofs.wr_exn_no_lock_left. Qed.
+(* afterwards the wrapper is usable: the state is an ordinary reachable state, a thread keeping no handle owns
+   nothing, an exclusive guard leaves the mutex free *)
+Theorem wr_exn_usable : ltac:(let T := type of WrapperProofs.wr_exn_usable in exact T).
+Proof. exact WrapperProofs.wr_exn_usable. Qed.
+(* never half-modified: in every operation body every user call precedes every write of the wrapped object, the
+   throwing call leaves the payload untouched, and at the release the payload is not dirty and no write window is open *)
+Theorem wr_exn_calls_first : ltac:(let T := type of WrapperProofs.wr_exn_calls_first in exact T).
+Proof. exact WrapperProofs.wr_exn_calls_first. Qed.
+Theorem wr_throw_payload_untouched : ltac:(let T := type of WrapperProofs.wr_throw_payload_untouched in exact T).
+Proof. exact WrapperProofs.wr_throw_payload_untouched. Qed.
+Theorem wr_exn_state : ltac:(let T := type of WrapperProofs.wr_exn_state in exact T).
+Proof. exact WrapperProofs.wr_exn_state. Qed.
+
+(* ---------- cow_guarded: a throwing copy in lock() ---------- *)
+(* unwinding order is the real one (~data before ~guard): the inner read registration is given back (counter
+   decremented), then the outer mutex is released with K_CATCH *)
+Theorem cow_throw_path : ltac:(let T := type of CowProofs.cow_throw_path in exact T).
+Proof. exact CowProofs.cow_throw_path. Qed.
+(* after the throw: outer mutex free, inner mutex and both copies and the committed version and the heap
+   unchanged, the thread registered nowhere and owning nothing *)
+Theorem cow_lock_copy_throw : ltac:(let T := type of CowProofs.cow_lock_copy_throw in exact T).
+Proof. exact CowProofs.cow_lock_copy_throw. Qed.
+Theorem cow_lock_enabled_when_free : ltac:(let T := type of CowProofs.cow_lock_enabled_when_free in exact T).
+Proof. exact CowProofs.cow_lock_enabled_when_free. Qed.
+Theorem cow_nonowner_owns_nothing : ltac:(let T := type of CowProofs.cow_nonowner_owns_nothing in exact T).
+Proof. exact CowProofs.cow_nonowner_owns_nothing. Qed.
 
 (* ---------- lr_guarded: all-or-nothing ---------- *)
 (* on leaving modify() by the exceptional path after a throw from the FIRST application (C_unlock true) both
